@@ -123,12 +123,12 @@ func (e *emmiter) AddListener(evt EventName, listeners ...Listener) error {
 		return nil
 	}
 
-	events := make([]*eventEntry, len(listeners))
-	for i, event := range listeners {
+	events := make([]*eventEntry, 0, len(listeners))
+	for _, event := range listeners {
 		if event == nil {
 			continue
 		}
-		events[i] = &eventEntry{fn: event, ptr: reflect.ValueOf(event).Pointer()}
+		events = append(events, &eventEntry{fn: event, ptr: reflect.ValueOf(event).Pointer()})
 	}
 
 	return e.addListeners(evt, events)
@@ -204,13 +204,13 @@ func (e *emmiter) Once(evt EventName, listeners ...Listener) error {
 		return nil
 	}
 
-	events := make([]*eventEntry, len(listeners))
-	for i, event := range listeners {
+	events := make([]*eventEntry, 0, len(listeners))
+	for _, event := range listeners {
 		if event == nil {
 			continue
 		}
 		oneTime := &oneTimeListener{fired: &sync.Once{}, evt: evt, emitter: e, fn: event}
-		events[i] = &eventEntry{fn: oneTime.execute, ptr: reflect.ValueOf(event).Pointer()}
+		events = append(events, &eventEntry{fn: oneTime.execute, ptr: reflect.ValueOf(event).Pointer()})
 	}
 	return e.addListeners(evt, events)
 }
